@@ -749,8 +749,11 @@ func (g *G) steppedRange(depth int) []Stmt {
 		}
 	}
 	var pre []Stmt
+	// a literal bound is typed by the compiler on its own (default i32): start and end are literals
+	// only for i32 loops, otherwise typed locals or calls, so that the loop variable has type t;
+	// the step is typed by the element type and may always be a literal
 	operand := func(prefix string, v int64) Expr {
-		if g.chance(40) {
+		if (prefix == "st" || t == I32) && g.chance(40) {
 			return &Lit{T: t, I: v}
 		}
 		if g.cfg.on("call") && g.chance(40) { // opaque: the value (and the step's sign) is only known at run time
